@@ -8,8 +8,8 @@ type libFn func(fc *FnCtx, st *State, args []Val) Val
 
 var libModels = map[string]libFn{}
 var libReads = map[string]map[string]string{} // heap keys a model reads
-var libWrites = map[string][]string{}          // heap keys a model writes
-var libImpure = map[string]bool{}              // result is not a function of the arguments
+var libWrites = map[string][]string{}         // heap keys a model writes
+var libImpure = map[string]bool{}             // result is not a function of the arguments
 
 func init() {
 	errT := "Iface"
